@@ -1363,7 +1363,7 @@ func xParamValues() []xParam {
 	out = append(out, xParam{"float32 1.5", float32(1.5), float32(77.5), "number", ""}, xParam{"float32 -0.1", float32(-0.1), float32(-77.5), "number", ""})
 	// non-finite floats have no numeric spelling: the correct rendering is the quoted word cast to a float type
 	// ('NaN'::float8), i.e. a string token where a finite value gives a number token, so they are their own reference
-	// (no panic, the text lexes, nothing else in the statement changes); before ab43f23 they were written as bare words
+	// (no panic, the text lexes, nothing else in the statement changes); before 4a7444a they were written as bare words
 	out = append(out, xParam{"float64 NaN", math.NaN(), math.NaN(), "self", "param-float-nonfinite"}, xParam{"float64 +Inf", math.Inf(1), math.Inf(1), "self", "param-float-nonfinite"},
 		xParam{"float64 -Inf", math.Inf(-1), math.Inf(-1), "self", "param-float-nonfinite"}, xParam{"float32 NaN", float32(math.NaN()), float32(math.NaN()), "self", "param-float-nonfinite"},
 		xParam{"float64 negative zero", math.Copysign(0, -1), -77.5, "number", ""})
